@@ -46,6 +46,22 @@ on_alarm(int sig) {
 	siglongjmp(hang_jmp, 1);
 }
 
+/* the commands that compile tables run under the same watchdog: a compilation that does not come back is reported as
+ * "<cmd> HANG" after WATCHDOG_SECONDS instead of blocking the stream until its timeout */
+#define GUARD_BEGIN                        \
+	signal(SIGALRM, on_alarm);             \
+	if (sigsetjmp(hang_jmp, 1) == 0) {     \
+		alarm(WATCHDOG_SECONDS);
+#define GUARD_END(tag)                     \
+		alarm(0);                          \
+	} else {                               \
+		alarm(0);                          \
+		printf("%s HANG\n", tag);          \
+		fflush(stdout);                    \
+		lou_free();                        \
+		continue;                          \
+	}
+
 static int raw_n = -1, raw_dir, raw_inlen, raw_outlen;
 static int raw_pm[1 << 16];
 static void
@@ -136,7 +152,9 @@ main(void) {
 				while (e > a && e[-1] == ' ') *--e = 0;
 				bar++;
 				while (*bar == ' ') bar++;
+				GUARD_BEGIN
 				r = lou_compileString(a, bar);
+				GUARD_END("K")
 			}
 			printf("K %d\n", r);
 			fflush(stdout);
@@ -147,7 +165,9 @@ main(void) {
 			int c0[8], k, r;
 			while (*a == ' ') a++;
 			for (k = 0; k < 8; k++) c0[k] = h_logcount[k];
+			GUARD_BEGIN
 			r = lou_checkTable(a);
+			GUARD_END("V")
 			printf("V %d errors=%d warnings=%d fatal=%d\n", r, h_logcount[4] - c0[4], h_logcount[3] - c0[3], h_logcount[5] - c0[5]);
 			fflush(stdout);
 			continue;
@@ -156,7 +176,9 @@ main(void) {
 			char *a = h_line + 1;
 			char const **cl;
 			while (*a == ' ') a++;
+			GUARD_BEGIN
 			cl = lou_getEmphClasses(a);
+			GUARD_END("E")
 			printf("E %d\n", cl != NULL);
 			if (cl) free((void *)cl);
 			fflush(stdout);
@@ -168,7 +190,9 @@ main(void) {
 			const void *p;
 			while (*a == ' ') a++;
 			opens_log[0] = 0;
+			GUARD_BEGIN
 			p = lou_getTable(a);
+			GUARD_END("G")
 			printf("G %d opens=%d files=%s\n", ptr_class(p), opens_total - o0, opens_log);
 			fflush(stdout);
 			continue;
